@@ -115,6 +115,59 @@ Theorem C11_offline_needs_fileTimeSecs : forall nbytes nc fs,
 Proof. exact open_offline_no_fts. Qed.
 Print Assumptions C11_offline_needs_fileTimeSecs.
 
+(* ---- the reader as a stateful object on a file whose size changes ---- *)
+
+(* 9. open_bin (theorems 1-8) is open_at with the constructor's size = the current size *)
+Theorem C11_open_bin_is_open_at : forall online nbytes nc fts fs,
+  open_bin online nbytes nc fts fs = fst (open_at online nbytes nbytes nc fts fs).
+Proof. exact open_bin_open_at. Qed.
+Print Assumptions C11_open_bin_is_open_at.
+
+(* 10. OnlineReader, every history: constructor with open=True or open=False on a file of
+   cur0 bytes, then any sequence of "the file now has n bytes" (appends or cuts), sr.open()
+   (first open or re-open) and sr.__enter__() — sizes and nc below 2^53.  At every point sr.ns
+   is the floor of the CURRENT size, and every open attempt succeeds and maps exactly the
+   floor of the size the file has at that moment (whatever size the constructor cached). *)
+Theorem C11_online_history : forall nc fs fts cur0 do_op ops,
+  1 <= nc < 2 ^ 53 -> 1 <= cur0 < 2 ^ 53 -> Forall op_ok ops ->
+  Forall (online_snap_ok nc) (history true nc fs fts cur0 do_op ops).
+Proof. exact history_online. Qed.
+Print Assumptions C11_online_history.
+
+(* 11. Offline Reader, the exact truth when the constructor saw `cached` bytes and the file has
+   `cur` bytes at open(): the comparison uses the cached size, the duration a fresh stat.
+   Claim disagrees with the cached size: floor of the CURRENT size, fileTimeSecs rewritten.
+   Claim agrees with the cached size: the claim ns0 is mapped as it is, checked by np.memmap
+   against the current file. *)
+Theorem C11_offline_open_exact : forall cached cur nc t fs ns0,
+  1 <= nc -> 1 <= cur -> cur / (2 * nc) <= 2 ^ 50 -> fs_ok fs ->
+  ns_meta (Some t) fs = NsOk ns0 ->
+  let k := cur / (2 * nc) in
+  open_at false cached cur nc (Some t) fs =
+    if negb (nc * ns0 * 2 =? cached)
+    then (Opened k nc (Some (rl k fs)) true, Some (rl k fs))
+    else (if memmap_ok cur ns0 nc then Opened ns0 nc (Some t) false else MmapError, Some t).
+Proof. exact open_at_offline. Qed.
+Print Assumptions C11_offline_open_exact.
+
+(* 12. Hence the property's clause fails for the offline Reader in one kind of history (F-C11-c):
+   Reader(file, open=False) on a file that agrees with its meta file, the file changes, open():
+   after an append the frames added since the constructor are NOT exposed (ns0 < floor(cur) as soon
+   as a whole frame was added); after a cut np.memmap raises. *)
+Theorem C11_offline_stale_size_refuted : forall cached cur nc t fs ns0,
+  1 <= nc -> 0 <= ns0 -> ns_meta (Some t) fs = NsOk ns0 -> nc * ns0 * 2 = cached ->
+  (1 <= cached -> cached + 2 * nc <= cur ->
+     open_at false cached cur nc (Some t) fs = (Opened ns0 nc (Some t) false, Some t) /\
+     ns0 < cur / (2 * nc)) /\
+  (cur < cached -> open_at false cached cur nc (Some t) fs = (MmapError, Some t)).
+Proof.
+  intros cached cur nc t fs ns0 Hnc Hns Hm Hc. split.
+  - intros H1 H2. split; [apply (open_at_offline_stale_grow cached cur nc t fs ns0); auto; lia|].
+    assert (ns0 + 1 <= cur / (2 * nc)) by (apply Z.div_le_lower_bound; nia). lia.
+  - intros H. apply (open_at_offline_stale_cut cached cur nc t fs ns0); auto.
+Qed.
+Print Assumptions C11_offline_stale_size_refuted.
+
 (* ---- the hypotheses are satisfiable on concrete, non-trivial inputs ---- *)
 Local Open Scope R_scope.
 Example fs_ok_30000 : fs_ok (of_me 30000 0).
@@ -147,4 +200,20 @@ Example ex_online_warned : run [0; 1; 0; 0; 385 * 2 * 22 + 386; 385; 82463710183
 Proof. vm_compute. reflexivity. Qed.
 (* offline Reader on the in-progress meta file: TypeError *)
 Example ex_offline_typeerror : run [0; 0; 0; 0; 385 * 2 * 22 + 386; 385; 8246371018302554; -38; 0; 0; 0] = [3].
+Proof. vm_compute. reflexivity. Qed.
+
+(* histories: OnlineReader(open=False) on 34 bytes (nc=5), file grows to 259 bytes, open(), grows to 400, re-open *)
+Example ex_history_online :
+  run [2; 1; 0; 5; 30000; 0; 0; 0; 0; 34; 0;  0; 259; 1; 0; 0; 400; 2; 0; 1; 0]
+  = [9;0; 0;3; -1; 4;0;0;0; 3;0;7378697629483821;-66;
+     9;0; 0;25; -1; 4;0;0;0; 3;0;7686143364045647;-63;
+     0;1; 0;25; 25; 3;0;7686143364045647;-63; 3;0;7686143364045647;-63;
+     9;0; 0;40; 25; 3;0;7686143364045647;-63; 3;0;6148914691236517;-62;
+     9;0; 0;40; 25; 3;0;7686143364045647;-63; 3;0;6148914691236517;-62;
+     0;1; 0;40; 40; 3;0;6148914691236517;-62; 3;0;6148914691236517;-62].
+Proof. vm_compute. reflexivity. Qed.
+(* the witness of theorem 12: meta claims 3 frames = 30 bytes = size at construction; file grows to 100 bytes *)
+Example ex_stale_offline :
+  fst (open_at false 30 100 5 (Some (fdiv (of_Z 3) (of_me 30000 0))) (of_me 30000 0)) =
+  Opened 3 5 (Some (fdiv (of_Z 3) (of_me 30000 0))) false.
 Proof. vm_compute. reflexivity. Qed.
